@@ -181,6 +181,7 @@ class Exec:
         self.deadline = None
         self.global_init = {}
         self.on_call = {}
+        self.trace_slow = bool(__import__('os').environ.get('SYMX_TRACE_SLOW'))
         self.fresh_cache = {}
         self.use_portfolio = True
         self.portfolio_log = []
@@ -216,7 +217,8 @@ class Exec:
                     if extra is not None: s2.add(extra)
                     if s2.check() == z3.sat: m = s2.model()
         if res == 'unknown': self.unknowns += 1
-        self.tsolve += time.time() - t
+        dt = time.time() - t; self.tsolve += dt
+        if dt > 1.0 and self.trace_slow: print(f'[slow {dt:.1f}s {res}] extra={str(extra)[:300]} pc_len={len(pc)}', flush=True)
         return res, m
 
     def model_fresh(self, pc, extra=None, timeout_ms=None):
@@ -425,10 +427,45 @@ class Exec:
         if k == 'global':
             g = st.aux.setdefault('G', {}); name = o['name']
             if name not in g:
+                self.partial_init(st, name.rsplit('.', 1)[0])
+            if name not in g:
                 g[name] = st.alloc(self.init_global(st, name, o))
             return Ptr(g[name])
         if k == 'builtin': return FuncV('builtin:' + o['name'])
         raise Unsupported(k)
+
+    INIT_OPS = {'Alloc', 'Store', 'MakeMap', 'MapUpdate', 'MakeSlice', 'Slice', 'IndexAddr', 'FieldAddr', 'Convert', 'ChangeType', 'MakeInterface',
+                'ChangeInterface', 'BinOp', 'UnOp', 'MakeClosure', 'Field', 'Index'}
+
+    def partial_init(self, st, pkg):
+        """evaluate the side-effect-free part of a package initialiser (composite literals, tables of constants) so that package-level
+        tables are concrete instead of symbolic; anything that depends on a call stays lazily symbolic"""
+        done = st.aux.setdefault('initdone', [])
+        if pkg in done: return
+        done.append(pkg)
+        fn = self.ir.funcs.get(pkg + '.init')
+        if fn is None: return
+        g = st.aux.setdefault('G', {})
+        fr = Frame(fn, [])
+        stored = set()
+        for b in fn['blocks']:
+            for ins in b['instrs']:
+                if ins['op'] not in self.INIT_OPS: continue
+                try:
+                    if ins['op'] == 'Store':
+                        a = ins['addr']
+                        if a['k'] == 'global':
+                            if a['name'] == pkg + '.init$guard': continue
+                            v = self.val(st, fr, ins['val'])
+                            if a['name'] not in g: g[a['name']] = st.alloc(clone(v))
+                            else: st.heap[g[a['name']]] = clone(v)
+                            stored.add(a['name']); continue
+                    if ins['op'] == 'UnOp' and ins['tok'] == '*' and ins['x']['k'] == 'global' and ins['x']['name'] not in stored: continue
+                    fr.block = b['index']
+                    r = self.exec(st, fr, ins)
+                    if r is not None: return
+                except (KeyError, Panic, Unsupported, Choice, AttributeError, TypeError, z3.Z3Exception, IndexError):
+                    continue
 
     def init_global(self, st, name, o):
         if name in self.global_init: return self.global_init[name](self, st)
